@@ -261,7 +261,7 @@ receiveLoop:
 		otherRecordBuffer = leftRecordBuffer
 	}
 
-	if err := processRecordsUpTo(ctx, minWatermark, true); err != nil {
+	if err := processRecordsUpTo(ctx, minWatermark, oneStreamRemains); err != nil {
 		return err
 	}
 
